@@ -144,7 +144,13 @@ fn check(p: &P6, st: &mut Stats) -> CheckResult {
     // old one took must not show through the new one), taken at the previous version
     let mut v1 = v1;
     if p.snapshot && mode != 1 && p.reopen == (p.later % 2 == 0) {
-        let longer = Bytes::from(BytesSpec { len: p.spec.len + 1 + p.spec.len / 5 + 4096, class: (p.spec.class + 1) % case::N_CLASSES, seed: p.spec.seed ^ 0x77 }.expand());
+        // (for the common-prefix class: one of the same length that differs only after its first
+        // 4 KiB, instead of a longer one)
+        let longer = if p.spec.class % case::N_CLASSES == 10 {
+            Bytes::from(BytesSpec { len: p.spec.len, class: 10, seed: p.spec.seed ^ 0x77 }.expand())
+        } else {
+            Bytes::from(BytesSpec { len: p.spec.len + 1 + p.spec.len / 5 + 4096, class: (p.spec.class + 1) % case::N_CLASSES, seed: p.spec.seed ^ 0x77 }.expand())
+        };
         match conn.call(Endpoint::AddSnapshot, c, v1, Some(&longer))? {
             Outcome::SnapshotOk => {}
             o => return v(format!("setting up an earlier, longer snapshot: {}", o.short())),
@@ -299,8 +305,8 @@ fn p6(tier: Tier) -> BoxedStrategy<P6> {
         .prop_map(move |(backend, entry, snapshot, (len, class, seed), mut sizes, enc, wsizes, reopen, later)| {
             let wsizes: Vec<u32> = wsizes;
             let first = ((seed >> 3) % 4) as u8 % 3;
-            // one-byte chunks only for small bodies (the handler is linear in chunks, the harness too)
-            if len > 20_000 && sizes.iter().any(|s| *s < 64) {
+            // one-byte chunks only for bodies up to 70 000 bytes - tens of thousands of pieces - (the handler is linear in chunks, the harness too)
+            if len > 70_000 && sizes.iter().any(|s| *s < 64) {
                 sizes = sizes.iter().map(|s| if *s == 0 { 0 } else { *s * 997 + 64 }).collect();
             }
             // likewise tiny socket writes (each one a packet with TCP_NODELAY): for large bodies
